@@ -9,7 +9,7 @@
 (*  S1 "with as many LVs as rank(X) the PLS fitted responses coincide with the OLS fitted responses, one or many responses,        *)
 (*      any scaling of either block"          LOls: full = 1 => err <= TolOls /\ |rssPls - rssOls| <= TolRssFull     event Ols     *)
 (*  S2 "training RSS never increases when an LV is added"   LRss: rss <= prev[j] + TolMonoOf (prev kept here)        event Rss     *)
-(*     (and no model beats the least-squares optimum: rss >= floorRss[j] - TolMonoOf, LOls: rssPls >= rssOls - ..)   Rss, Ols      *)
+(*     (and no model beats the least-squares optimum: rss >= floorRss[j] - TolMonoOf, LOls: rssPls >= rssOls - FloorTol)  Rss, Ols *)
 (*  S3 "R2 is non-decreasing in the LV count"  LRss: R2Guard - the REPORTED R2 (PLSRegressionStatistics) is linked to One - rss     *)
 (*     for a centred response and must not fall below the previous reported value of the response (r2prev kept here);              *)
 (*     r2gap <= TolAlg ties the reported R2 / RMSE to their definitions                                               event Rss     *)
@@ -21,7 +21,8 @@
 (* Modelled, not stated (deviations are extra findings, never verdicts): statistics of unseen objects = their definitions (LStat   *)
 (* was already a verdict of the existing check and stays one), bias = |1 - slope| (LBias), per-column change of units (LXUnits),   *)
 (* OLS coefficients applied to unseen objects = score-based predictions at nlv = rank (LOlsNew),                                   *)
-(* exact fit from the Krylov count on (LExact), change of units of the whole predictor block (LXScale, verdict as before).         *)
+(* exact fit from the Krylov count on (LExact), change of units of the whole predictor block (LXScale: the statement's             *)
+(* equivariance clause is about the RESPONSE only).                                                                                *)
 (*                                                                                                                                  *)
 (* History ledger (class K7): the ledger counts the fits made so far in one operating-system process (nfits) and remembers the     *)
 (* dimensions of the previous one; the position and the relation "first / same dimensions / other dimensions" a Fit event claims    *)
@@ -64,7 +65,7 @@ ThTolMonotone == \A n_ \in {6, 40}, o1 \in OffSet, o2 \in OffSet, bn \in {0, 100
                    o1 <= o2 => /\ TolMonoOf(o1) <= TolMonoOf(o2) /\ TolMonoOf(o1) >= TolMono
                                /\ TolOlsOf(n_, o1, o1, bn) <= TolOlsOf(n_, o2, o2, bn) /\ TolOlsOf(n_, o1, o2, bn) >= TolAlg
                                /\ TolOlsOf(n_, o1, o2, 0) <= TolOlsOf(n_, o1, o2, bn)
-                               /\ TolRssFullOf(n_, o1, o1, bn) <= TolRssFullOf(n_, o2, o2, bn)
+                               /\ TolRssFullOf(n_, o1, o1, bn) <= TolRssFullOf(n_, o2, o2, bn) /\ TolRssFullOf(n_, o1, o2, bn) >= TolMonoOf(o2)
                                /\ TolBetaOf(o1) <= TolBetaOf(o2) /\ TolAffOf(n_, o1, 0) <= TolAffOf(n_, o2, 0) /\ TolAffOf(n_, 0, o1) = TolAffOf(n_, o1, 0)
                                /\ R2SlackOf(o1, 1000) <= R2SlackOf(o2, DrCap)
 \* the tolerances stay meaningful: at 1e8 spreads and 40 objects the OLS limit is still decided to 1e-4 or better for coefficients of size 1,
@@ -119,6 +120,7 @@ LRss(a, j, rss, r2gap, r2, dr) ==
   /\ r2prev' = [r2prev EXCEPT ![j] = r2] /\ r2a' = [r2a EXCEPT ![j] = a]
   /\ UNCHANGED <<nfits, pdims, exk, pairs>>
 
+FloorTol(bn) == TolRssFullOf(nobj, offx, offy, IF offx >= 4000 THEN bn ELSE 0)
 LOls(j, rssPls, rssOls, err, full, bn) ==
   /\ bn >= 0 /\ (xsc < 0 => bn = 0)
   /\ IF ~K3 THEN POls(j, rssPls, rssOls, err, full)
@@ -126,10 +128,13 @@ LOls(j, rssPls, rssOls, err, full, bn) ==
           /\ (offx >= 4000 => bn <= BnCap)                            \* admission of the K3 generators (and no overflow in ShiftOf)
           /\ full = (IF nlv = nvar THEN 1 ELSE 0)
           /\ (lastA[j] = nlv => rssPls = prev[j])
-          /\ rssOls >= 0 /\ rssPls >= rssOls - TolMonoOf(offy)
-          /\ prev[j] >= rssOls - TolMonoOf(offy)
+          \* "no PLS model beats the least-squares optimum" holds in the space the MODEL spans; the oracle's space differs from it by the rounding
+          \* of the stored column means (MeanOf): the floor carries the same logged-input tolerance as the OLS limit itself
+          /\ rssOls >= 0 /\ rssPls >= rssOls - FloorTol(bn)
+          /\ prev[j] >= rssOls - FloorTol(bn)
           /\ (full = 1 => err <= TolOlsOf(nobj, offx, offy, bn) /\ Abs(rssPls - rssOls) <= TolRssFullOf(nobj, offx, offy, bn))
-          /\ floorRss' = [floorRss EXCEPT ![j] = rssOls]
+          \* the floor later Rss events are held against (LRss compares with TolMonoOf) is lowered by the part of the tolerance that is not TolMonoOf
+          /\ floorRss' = [floorRss EXCEPT ![j] = Max(0, rssOls - (FloorTol(bn) - TolMonoOf(offy)))]
           /\ UNCHANGED <<shapeV, phase, k, colsSeen, residSeen, prev, lastA>>
   /\ UNCHANGED <<r2prev, r2a, nfits, pdims, exk>>
   \* quantifier bookkeeping: S1 has been decided (accepted) at nlv = rank for this pair of scaling options, one / several responses
@@ -201,7 +206,8 @@ MFitK(maxfits) == /\ nfits < maxfits
 MResetK == \E s \in 0..2 : LReset(s)
 \* ledger scope: one fit per process (the history ledger is independent of the rss / R2 ledgers: scope MNextH)
 MRssA == \E a \in MLvs, j \in 0..1, r \in MRss, q \in MR2 : LRss(a, j, r, 0, q, 1000) \/ LRss(a, j, r, 0, q, 1500) \/ LRss(a, j, r, TolAlg + 1, q, 1000) \/ LRss(a, j, r, 0, q, DrCap + 1)
-MOlsA == \E j \in 0..1, r \in MRss, f \in 0..1, b \in MBn : \E q \in {prev[j], MBase}, e \in MErrOf(TolOlsOf(nobj, offx, offy, b)) : LOls(j, q, r, e, f, b)
+MOlsA == \E j \in 0..1, f \in 0..1, b \in MBn : \E q \in {prev[j], MBase}, e \in MErrOf(TolOlsOf(nobj, offx, offy, IF b > BnCap THEN 0 ELSE b)) :
+            \E r \in MRss \cup (IF K3 /\ b <= BnCap THEN {q + FloorTol(b), q + FloorTol(b) + 1} ELSE {}) : LOls(j, q, r, e, f, b)
 MBetaA == \E a \in MLvs, e \in MErrOf(TolBetaOf(offy)) : LBeta(a, e, 0) \/ LBeta(a, 0, e)
 MAffineA == \E o2 \in {0, 999, 8000000} : \E e \in MErrOf(TolAffOf(nobj, offy, o2)) : LAffine(2000, 0 - 500, o2, e, 0) \/ LAffine(0 - 3, 7, o2, 0, e)
 MXScaleA == \E e \in MErrOf(TolBetaOf(offy)) : LXScale(0 - 6, e, 0) \/ LXScale(4, 0, e)
